@@ -10,7 +10,7 @@
 #             (clamped answers and positions equal; overflow only when justified; window errors
 #             only for undisciplined clients; stale rewind only after a discard; reader regions
 #             inside the allocation): real buffer_input deviating from it -> ctx.violation.
-#  part (b) : grammar-level differential on the real library only (mode gram): 30 grammars x
+#  part (b) : grammar-level differential on the real library only (mode gram): 32 grammars x
 #             inputs x input classes, every class compared with memory_input<eager>.
 import concurrent.futures
 import os
@@ -506,6 +506,45 @@ def short(h, n=48):
     return h if len(h) <= n else "%s...(%d chars)" % (h[:n], len(h))
 
 
+# the recorded known finding (known_findings.json): one signature for the whole class
+WRAP_SIG = "buffer_input::require pointer wrap on size_t(-1): everything consumes only buffered bytes"
+WRAP_WITNESS = {"mode": "gram", "grammar": 30, "class": "buffer_input<programmable reader>", "maximum": 100, "chunk": 64,
+                "schedule": "-", "input_hex": b"abcdef".hex(), "rule": "everything", "input": "abcdef"}
+NGRAMMARS = 32
+
+
+def handle_mismatch(ctx, l):
+    head, why, rule, base, got = [x.strip() for x in l.split(" | ")]
+    f = dict(x.split("=", 1) for x in head.split()[1:] if "=" in x)
+    cls = head.split(" class=", 1)[1].split(" maximum=", 1)[0]
+    if why[4:] == "EVERYTHING-WRAP":
+        ctx.violation(WRAP_SIG,
+                      "a grammar containing `everything` succeeds on a buffered input with the same actions as on memory_input but "
+                      "consumes only the bytes already buffered (m_current.data + size_t(-1) wraps in buffer_input::require): "
+                      "%s %s input=%s maximum=%s chunk=%s | %s | %s" % (cls, rule[5:], short(f.get("input")), f.get("maximum"), f.get("chunk"), base, got),
+                      dict(WRAP_WITNESS))
+        return
+    sig = "%s %s input=%s maximum=%s chunk=%s schedule=%s: %s" % (
+        cls, rule[5:], short(f.get("input")), f.get("maximum"), f.get("chunk"), short(f.get("schedule")), why[4:])
+    ctx.violation(sig, "input class changes the parse: " + why[4:] + " | " + base + " | " + got,
+                  {"mode": "gram", "grammar": int(f["grammar"]), "class": cls, "maximum": int(f["maximum"]),
+                   "chunk": int(f["chunk"]), "schedule": f["schedule"], "input_hex": f["input"], "rule": rule[5:]})
+
+
+def run_wrap_witness(ctx, exes):
+    """replay the minimal witness of the known finding on the current tree: everything on "abcdef", maximum 100"""
+    w = WRAP_WITNESS
+    rc, out = vlib.sh([exes[w["grammar"] % NPARTS], "one", str(w["grammar"]), w["class"], str(w["maximum"]), str(w["chunk"]),
+                       w["schedule"], w["input_hex"]], timeout=120)
+    lines = out.splitlines()
+    for l in lines:
+        if l.startswith("MISMATCH "):
+            handle_mismatch(ctx, l)
+    if rc not in (0, 1) or not any(l in ("OK", "VIOLATED") for l in lines):
+        ctx.violation("c07_impl one (everything witness) crashed (rc %d)" % rc, out[-1500:], {"mode": "gram-crash", "rc": rc})
+    ctx.note("known-finding witness on this tree: parse< everything > on \"abcdef\", buffer_input maximum 100: " + " ; ".join(l for l in lines if l.startswith(("base=", "got=")) or l in ("OK", "VIOLATED")))
+
+
 def run_gram(ctx, exes):
     def one(k):
         # the harness has its own watchdog (alarm: 100 s quick / 600 s thorough) and reports the hanging case
@@ -521,15 +560,7 @@ def run_gram(ctx, exes):
         lines = out.splitlines()
         for l in lines:
             if l.startswith("MISMATCH "):
-                head, why, rule, base, got = [x.strip() for x in l.split(" | ")]
-                f = dict(x.split("=", 1) for x in head.split()[1:] if "=" in x)
-                # class names contain no blanks except none; keep as printed
-                cls = head.split(" class=", 1)[1].split(" maximum=", 1)[0]
-                sig = "%s %s input=%s maximum=%s chunk=%s schedule=%s: %s" % (
-                    cls, rule[5:], short(f.get("input")), f.get("maximum"), f.get("chunk"), short(f.get("schedule")), why[4:])
-                ctx.violation(sig, "input class changes the parse: " + why[4:] + " | " + base + " | " + got,
-                              {"mode": "gram", "grammar": int(f["grammar"]), "class": cls, "maximum": int(f["maximum"]),
-                               "chunk": int(f["chunk"]), "schedule": f["schedule"], "input_hex": f["input"], "rule": rule[5:]})
+                handle_mismatch(ctx, l)
             elif l.startswith("HANG "):
                 ctx.violation("non-terminating or >100x slower parse: " + l[5:].split(" | rule=")[0] + " " + l.split(" | rule=")[-1],
                               "the parse does not terminate (or the harness watchdog expired) under this input class although memory_input<eager> terminates: " + l,
@@ -550,10 +581,10 @@ def run_gram(ctx, exes):
             ctx.violation("c07_impl gram part %d crashed (rc %d)" % (k, rc),
                           "grammar-level harness terminated abnormally (assertion in buffer_input, signal, or exception escaping an input class): " + out[-1500:],
                           {"mode": "gram-crash", "part": k, "rc": rc})
-    if len(summaries) != 30 and not ctx.violations:
-        ctx.diff("grammar-level: expected 30 grammar summaries", {"got": len(summaries)})
+    if len(summaries) != NGRAMMARS and not any(v["signature"] != WRAP_SIG for v in ctx.violations):
+        ctx.diff("grammar-level: expected %d grammar summaries" % NGRAMMARS, {"got": len(summaries)})
     ctx.cover(evaluations=runs, distinct=nontrivial, validated=0,
-              rule="grammar level (real library only): 30 buffering-sensitive grammars x all inputs over a 3-4 letter alphabet up to length %d (+ seeded longer ones, + files of 0,1,pagesize-1,pagesize,pagesize+1,2*pagesize bytes) x {memory lazy, string eager/lazy, argv, istream, cstream, read, mmap, file, buffer_input<programmable reader> under ALL compositions of the input into read sizes x maximum in {1..8,16} x Chunk in {1,2,3,8,64}}; compared with memory_input<eager>: result, final byte/line/column, action trace with spans, parse_error message+position; non-trivial = input of >= 2 bytes with a non-empty action trace" % (6 if ctx.tier == "quick" else 7),
+              rule="grammar level (real library only): 30 buffering-sensitive grammars + 2 grammars with `everything` (recorded known finding) x all inputs over a 3-4 letter alphabet up to length %d (+ seeded longer ones, + files of 0,1,pagesize-1,pagesize,pagesize+1,2*pagesize bytes) x {memory lazy, string eager/lazy, argv, istream, cstream, read, mmap, file, buffer_input<programmable reader> under ALL compositions of the input into read sizes x maximum in {1..8,16} x Chunk in {1,2,3,8,64}}; compared with memory_input<eager>: result, final byte/line/column, action trace with spans, parse_error message+position; non-trivial = input of >= 2 bytes with a non-empty action trace" % (6 if ctx.tier == "quick" else 7),
               samples=summaries[:4], gram_inputs=inputs, gram_runs=runs, gram_overflow_outcomes=overflow,
               gram_raised=raised, gram_matched=matched, gram_mismatches=mism)
 
@@ -568,8 +599,8 @@ def run(ctx):
              "libc (open, mmap, fread, iostreams, argv) are modelled as 'yields these bytes', not verified; exercised "
              "differentially only (temporary files of 0, 1, pagesize-1, pagesize, pagesize+1, 2*pagesize bytes, fmemopen, istringstream)")
     ctx.note("amounts are natural numbers in the model: wrap-around of m_current.data + amount for amounts near SIZE_MAX is "
-             "outside the model; the only library caller is internal::everything (size_t(-1)), documented as 'limited by the "
-             "buffer size' on incremental inputs - on buffer_input it consumes only what happens to be buffered")
+             "outside the executable model; the only library caller is internal::everything (size_t(-1)): recorded known finding "
+             "(C07_everything_wrap_refuted / C07_everything_wrap_partial state the wrapped first test of require() separately)")
     ctx.note("engine-level equality of whole parses on top of the proved buffer arithmetic is by differential execution "
              "(part b), not by proof")
     ctx.assumptions = [
@@ -577,8 +608,7 @@ def run(ctx):
         "a reader is legal iff it returns 1..request bytes while input is left and 0 only at the end (doc: Custom Readers); every finite behaviour of such a reader is a schedule",
         "clients are sequences of API operations; adaptive clients are covered because the theorem holds for every sequence and answers agree up to the clamp every PEGTL rule applies",
     ]
-    rc, out = vlib.sh([exes[0], "probe"], timeout=60)
-    ctx.note("observation on this tree (not judged, `everything` is outside the corpus): " + out.strip())
+    run_wrap_witness(ctx, exes)
     run_api(ctx, model, exes[0], asan)
     run_gram(ctx, exes)
 
